@@ -30,7 +30,7 @@ LEVEL_NOTE = (
     "PARTIAL (labelled): below statement granularity (preemption inside a source line / inside C code), timeouts, "
     "sleep (set to 0), garbage-collection driven __del__ and dead WeakMethods are not modelled; atomicity of single "
     "set/dict/list operations under the GIL and of threading.Lock is assumed; one thread per endpoint (a key is "
-    "used by its owner thread only). Callback theorems assume at most one connect per callback key. Bounded "
+    "used by its owner thread only). callback_inv / callback_registered_while_open are stated for callback keys that are never connected without callbacks and never disconnected (CbOnlyProg); the plain-channel theorems are unconditional. Bounded "
     "exhaustive / random schedules only validate the model (tie), the theorems cover all schedules.")
 TECHNIQUE = ("Lean 4 proof (invariants by induction over all interleavings of a transition system) + lock-step "
              "differential correspondence against real threads under a deterministic scheduler")
@@ -44,7 +44,8 @@ ASSUMPTIONS = [
     "atomicity of single set/dict/list operations under the GIL and of threading.Lock",
     "OS preemption inside C code, timeouts, sleep and GC-driven __del__ / dead WeakMethod are not modelled",
     "one thread per endpoint; a socket key is operated by its owner thread only",
-    "callback theorems: at most one connect per callback socket key",
+    "callback theorems: the callback key is never connected without callbacks and never disconnected (CbOnlyProg)",
+    "is_connected (two reads of _open_sockets in one source line) is one atomic step",
 ]
 
 N_PROCS = 6
